@@ -13,6 +13,7 @@ Three enumerations:
    a loaded program whose map memory is a bytearray (seams
    ebpfcat.arraymap.create_map / mmap).
 """
+import contextlib
 import itertools
 import operator
 import os
@@ -56,6 +57,7 @@ KF_DIV = "C02-signed-div-unsigned"
 KF_SX = "C02-sw-operand-zero-extended"
 KF_CONST = "C02-constant-truncated"
 KF_PYSET = "C02-arrayvar-set-truncated"
+KF_WIDE = "C02-left-constant-makes-32bit"
 
 
 # ------------------------------------------------------------------- leaves
@@ -326,6 +328,35 @@ def build(tree, dest, alias, res, wide_sw=False):
         return None
 
 
+COMBOS = [c for n in (1, 2, 3, 4) for c in itertools.combinations(
+    (KF_DIV, KF_CONST, KF_SX, KF_WIDE), n)]
+
+
+def left_const(t):
+    """some operator node has a constant as its left operand"""
+    if is_leaf(t):
+        return False
+    return t[1][0] == "const" or left_const(t[1]) or left_const(t[2])
+
+
+@contextlib.contextmanager
+def wide_constants():
+    """defect model KF_WIDE: the generator with constants announcing
+    themselves as 64 bit wide (the checked run never uses this)"""
+    import ebpfcat.ebpf as eb
+    orig = eb.Constant.calculate
+
+    @contextlib.contextmanager
+    def calculate(self, dst, long, force=False):
+        with orig(self, dst, long, force) as (d, _l):
+            yield d, True
+    eb.Constant.calculate = calculate
+    try:
+        yield
+    finally:
+        eb.Constant.calculate = orig
+
+
 def has_const(t, pred):
     return any(l[0] == "const" and pred(l[1]) for l in leaves_of(t))
 
@@ -373,7 +404,6 @@ def run_case(tree, dest, alias, envs, res, kernel=False):
             kfd = p.b.load_kernel()
         except kern.LoadError:
             res.count("kernel_rejected")
-    p2 = None          # lazily built variant for the sw defect model
 
     def oracle(env, cv):
         if iscmp:
@@ -381,15 +411,24 @@ def run_case(tree, dest, alias, envs, res, kernel=False):
             return {((1 if t else 2), 7) for t in ts}
         return expected(tree, dest, env, cv)
 
-    def vm_variant(env, sx_, div):
-        nonlocal p2
-        q = p
-        if sx_:
-            if p2 is None:
-                p2 = build(tree, dest, alias, core.Result(), wide_sw=True)
-            q = p2
-            if q is None:
-                return None
+    variants = {}
+    recorded = {}
+
+    def vm_variant(env, sx_, div, wide):
+        key = (sx_, wide)
+        if key not in variants:
+            if wide:
+                with wide_constants():
+                    variants[key] = build(tree, dest, alias, core.Result(),
+                                          wide_sw=sx_)
+            elif sx_:
+                variants[key] = build(tree, dest, alias, core.Result(),
+                                      wide_sw=True)
+            else:
+                variants[key] = p
+        q = variants[key]
+        if q is None:
+            return None
         ins = q.b._decoded
         if sx_:
             ins = patch_sx_moves(ins, {q.regno[l] for l in q.leaves
@@ -446,26 +485,34 @@ def run_case(tree, dest, alias, envs, res, kernel=False):
             can_sx = any(l[0] == "reg" and l[1] == "sw" and env[l] < 0
                          for l in p.leaves)
             can_const = any(has_const(t, inexact) for t in trees)
-            for combo in ((KF_DIV,), (KF_CONST,), (KF_SX,),
-                          (KF_DIV, KF_CONST), (KF_DIV, KF_SX),
-                          (KF_CONST, KF_SX), (KF_DIV, KF_CONST, KF_SX)):
+            can_wide = iscmp and any(left_const(t) for t in trees)
+            for combo in COMBOS:
                 if KF_SX in combo and not can_sx:
                     continue
                 if KF_CONST in combo and not can_const:
+                    continue
+                if KF_WIDE in combo and not can_wide:
                     continue
                 try:
                     exp2 = oracle(env, dec_truncated if KF_CONST in combo
                                   else dec)
                 except Outside:
                     continue
-                if KF_DIV in combo or KF_SX in combo:
-                    obs2 = vm_variant(env, KF_SX in combo, KF_DIV in combo)
+                if set(combo) - {KF_CONST}:
+                    obs2 = vm_variant(env, KF_SX in combo, KF_DIV in combo,
+                                      KF_WIDE in combo)
                 else:
                     obs2 = obs
                 if obs2 is not None and obs2 in exp2:
                     kf = combo[0] if len(combo) == 1 else list(combo)
                     break
             res.outcomes.add(("wrong", str(kf)))
+            res.count("violating_evaluations")
+            recorded[str(kf)] = recorded.get(str(kf), 0) + 1
+            if recorded[str(kf)] > 3:
+                # same program, same attribution, same signature: counted
+                res.count("violations_beyond_3_per_program_and_kind")
+                continue
             res.violation(dict(case, env=envj(env)), fmt(exp), fmt({obs}),
                           kf=kf, sig=core.digest([shape(tree), dest, str(kf)]),
                           note="wrong value" if not iscmp
@@ -489,9 +536,19 @@ def uniq(xs):
 
 
 def values(l, seed, small):
+    """small: False full alphabet, True reduced, "tiny" for depth 2"""
     import random
     size, signed, fixed = ltype(l)
     rnd = random.Random(seed * 131 + size * 4 + signed * 2 + fixed)
+    if small == "tiny":
+        if fixed:
+            return [0, 1, -250000, 350000, 3 * 10 ** 13,
+                    rnd.randrange(-10 ** 7, 10 ** 7)]
+        vs = [0, 3, -7, 21474, 9 * 10 ** 8]
+        bits = 8 * size
+        lo, hi = (-(1 << (bits - 1)), (1 << (bits - 1)) - 1) if signed \
+            else (0, (1 << bits) - 1)
+        return [v for v in vs if lo <= v <= hi] + [rnd.randrange(1, 120)]
     if fixed:
         vs = [0, 1, -1, FB, 250000, -250000, 29000, 99999, -350000,
               123456789, 3 * 10 ** 13, -(10 ** 10) - 1, 50000, -99999,
@@ -591,21 +648,31 @@ def work_copy(item, res):
 
 
 def work_d2(item, res):
-    a, b, c, op1, dests, seed, kernel_every = item
+    a, b, c, op1, dests, seed, kernel_every, cap = item
     n = 0
+
+    def envs_for(trees):
+        envs = list(vectors(var_leaves(trees), seed, "tiny"))
+        step = -(-len(envs) // cap)
+        return [e for i, e in enumerate(envs) if i % step == n % step]
     for op2 in ARITH:
         for tree in ((op2, (op1, a, b), c), (op1, a, (op2, b, c))):
-            leaves = var_leaves([tree])
-            envs = list(vectors(leaves, seed, True))
-            if len(leaves) == 3:
-                envs = [e for i, e in enumerate(envs) if i % 7 == n % 7]
             for dest in dests:
                 n += 1
-                run_case(tree, dest, None, envs, res, n % kernel_every == 0)
-    for op in (">", "<=", "=="):
-        tree = ("cmp", op, (op1, a, b), c)
-        envs = list(vectors(var_leaves([tree[2], tree[3]]), seed, True))
-        run_case(tree, None, None, envs, res, False)
+                run_case(tree, dest, None, envs_for([tree]), res,
+                         n % kernel_every == 0)
+
+
+def work_cmpx(item, res):
+    """comparisons whose sides are expressions"""
+    a, b, c, op1, cmps, seed, kernel_every, cap = item
+    n = 0
+    for op in cmps:
+        for tree in (("cmp", op, (op1, a, b), c), ("cmp", op, c, (op1, a, b))):
+            n += 1
+            envs = list(vectors(var_leaves([tree[2], tree[3]]), seed,
+                                "tiny"))
+            run_case(tree, None, None, envs, res, n % kernel_every == 0)
 
 
 # ---- program constants: every k/100000
@@ -773,8 +840,8 @@ def work_pyset(item, res):
 
 
 def work(item, res):
-    {"d1": work_d1, "copy": work_copy, "d2": work_d2, "const": work_const,
-     "pyset": work_pyset}[item[0]](item[1:], res)
+    {"d1": work_d1, "copy": work_copy, "d2": work_d2, "cmpx": work_cmpx,
+     "const": work_const, "pyset": work_pyset}[item[0]](item[1:], res)
 
 
 def items_for(ctx):
@@ -794,20 +861,26 @@ def items_for(ctx):
         l2 = [("reg", "x"), ("loc", "x"), ("reg", "sr"), ("const", 2.5),
               ("const", 3)]
         d2 = [("reg", "x"), ("loc", "q")]
-        ops1 = ["+", "*", "/", "//"]
+        cap = 250
+        cmps = [">", "=="]
     else:
         l2 = [("reg", "x"), ("loc", "x"), ("reg", "sr"), ("reg", "w"),
-              ("loc", "h"), ("const", 2.5), ("const", 0.29), ("const", -2.5),
-              ("const", 3)]
-        d2 = [("reg", "x"), ("loc", "x"), ("reg", "sr"), ("loc", "i")]
-        ops1 = list(ARITH)
+              ("const", 2.5), ("const", 0.29), ("const", 3)]
+        d2 = [("reg", "x"), ("reg", "sr"), ("loc", "i")]
+        cap = 250
+        cmps = list(CMP)
+    m = 0
     for a, b, c in itertools.product(l2, repeat=3):
         if sum(x[0] == "const" for x in (a, b, c)) >= 2:
             continue
         a, b, c = [x if x[0] == "const" else x + (i,)
                    for i, x in enumerate((a, b, c))]
-        for op1 in ops1:
-            items.append(("d2", a, b, c, op1, d2, ctx.seed, ke))
+        for op1 in ARITH:
+            m += 1
+            if ctx.quick and (m + ctx.seed) % 3:
+                continue
+            items.append(("d2", a, b, c, op1, d2, ctx.seed, ke, cap))
+            items.append(("cmpx", a, b, c, op1, cmps, ctx.seed, ke, cap))
     variants = VARIANTS[:3] if ctx.quick else VARIANTS
     n = 0
     for sign, ip in variants:
@@ -852,7 +925,8 @@ def run(ctx):
     res = core.pmap(ctx, work, items, chunk=6)
     res.cov["work_items"] = len(items)
     res.cov["families"] = {k: sum(1 for i in items if i[0] == k)
-                           for k in ("d1", "copy", "d2", "const", "pyset")}
+                           for k in ("d1", "copy", "d2", "cmpx", "const",
+                                     "pyset")}
     res.cov["states"] = len(res.nontrivial)
     res.cov.setdefault("transitions", 0)
     res.cov["traces_validated_against_impl"] = res.cov.get("evaluations", 0)
